@@ -141,7 +141,7 @@ class MarkingDefinition(_STIXBase20, _MarkingsMixin):
                 if _should_set_millisecond(kwargs['created'], marking_type):
                     self._properties = copy.deepcopy(self._properties)
                     self._properties.update([
-                        ('created', TimestampProperty(default=lambda: NOW, precision='millisecond')),
+                        ('created', TimestampProperty(default=lambda: NOW, precision='millisecond', precision_constraint='min')),
                     ])
 
             if not isinstance(kwargs['definition'], marking_type):
